@@ -105,6 +105,7 @@ def capObs (op idx client kind c k plen n p : String) : Unit × String :=
 def stepCore (_ : Unit) (ws : List String) : Unit × String :=
   let bad (idx : String) := ((), idx ++ " bad-op")
   match ws with
+  | ["capre", idx, _client, _kind, _ec] => ((), idx ++ " err")
   | ["dec", idx, c, k, fmt, p] =>
     match tyOf c k, fmt.toNat?, unhex p with
     | some t, some fmt, some body => ((), idx ++ " " ++ showN showRaw (decodeTypedSliceRaw F fmt t body))
@@ -273,6 +274,7 @@ def stepCore (_ : Unit) (ws : List String) : Unit × String :=
                     if hk = "same" ∨ hk = "slow" then hexOfBytes (bodyTypedSlice t i.elems)
                     else if hk = "bytes" then hexOfBytes (encodeTypedRaw ⟨2, 0⟩ i.elems.flatten.length i.elems.flatten)
                     else if hk = "err" then "err 4096"
+                    else if hk.startsWith "err" then "err " ++ (hk.drop 3).toString
                     else "panic"
                   "called " ++ flag ++ " " ++ res
               go tl fuel (s :: acc)
@@ -294,6 +296,7 @@ def stepCore (_ : Unit) (ws : List String) : Unit × String :=
         if route = "slice" then some .slice else if route = "ref" then some .sliceRef
         else if route = "typed" then some .typed else none
       match kind?, route? with
+      | some _, none => if route = "missing" then ((), idx ++ " err Server(6)") else bad idx
       | some kd, some rt =>
         if p.length ≠ n * t.width then bad idx
         else
@@ -331,6 +334,11 @@ def step (u : Unit) (ws : List String) : Unit × String :=
   match ws with
   | ["frag", idx, srv, _cuts, kind, route, c, k, plen, n, p] =>
     stepCore u ["net", idx, srv, "raw", kind, route, c, k, plen, n, p]
+  | ["stall", idx, srv, ms, kind, route, c, k, plen, n, p] =>
+    -- one answer per stalled connection, each the ordinary one
+    let one := (stepCore u ["net", idx, srv, "raw", kind, route, c, k, plen, n, p]).2
+    let obs := (one.drop (idx.length + 1)).toString
+    ((), idx ++ " " ++ " | ".intercalate (List.replicate (ms.splitOn ",").length obs))
   | _ => stepCore u ws
 
 end Repe.Driver.Numeric
